@@ -242,13 +242,16 @@ func Keyify(v V, keys []string) V {
 
 // Edit derives a document from a by a drawn sequence of edits at drawn
 // positions.
-func Edit(t *rapid.T, a V, p Profile) V {
+func Edit(t *rapid.T, a V, p Profile) V { return EditN(t, a, p, 1, 4) }
+
+// EditN applies between lo and hi edits.
+func EditN(t *rapid.T, a V, p Profile, lo, hi int) V {
 	p = p.norm()
 	if val.IsVoid(a) {
 		return Doc(t, p)
 	}
 	b := val.Clone(a)
-	n := Int(t, "nEdits", 1, 4)
+	n := Int(t, "nEdits", lo, hi)
 	for i := 0; i < n; i++ {
 		b = editAt(t, b, p, 0)
 	}
